@@ -26,21 +26,28 @@ MANIFEST = dict(
               'as text terms, mutation events, result kinds of every public method, symbolic run of every copy-like method, __hash__ after '
               'Python\'s resolution, in-place operator methods; the sets of names the census relies on are least fixpoints computed from the '
               'source) + vm_compute correspondences (bit-exact / string-exact / parse results / frames / result aliasing / copied slots bit for '
-              'bit / __format__ components string-exact) + searches (histories over 65 operation kinds, matrix->angle routes, every constructor '
-              'argument form x boundary values x copies, hash/== of frozen values as keys, every in-place operator on frozen receivers, '
-              '__format__ specs, text round trips), every call into the implementation under a CPU-time limit',
+              'bit / __format__ components string-exact) + searches (histories over 66 operation kinds incl. ERROR PATHS - public calls with '
+              'arguments they must refuse, then the same frame/range checks on what was left behind -, matrix->angle routes, every constructor '
+              'argument form x boundary values x copies (a mutable copy taken twice must be two new objects: caches), hash/== of frozen values '
+              'as keys, every in-place operator on frozen receivers, __format__ specs, text round trips of str/join/repr), every call into the '
+              'implementation under a CPU-time limit.  Violations are raised only for what the property text states; behaviour beyond it '
+              '(which classes are hashable, the bits a numeric constructor stores inside the range, zero stripping of format(v, ".2f"), '
+              'repr spelled differently from str but canonical, == within the tolerance vs hash) is recorded as observations',
     text='Theorems in Props/C05.v; c05_property states the whole property over the record of everything read from the source, under the boolean '
          'hypotheses c05_source_ok which are kernel-checked on today\'s objects on every run. (a) For EVERY finite binary64 x the executable '
          'Flocq model of x % 360.0 % 360.0 is finite and in [0,360) (a single % reaches exactly 360.0, witness -1e-14), is the identity on '
          '[0,360) and subtracts exactly 360 on [360,720); hence, if every store to _pitch/_yaw/_roll is a double modulo, a copy of an angle '
-         'slot or 0.0, all angle slots stay in [0,360) after every history of stores with finite operands; and for the dispatch table of '
+         'slot or 0.0, all angle slots stay in [0,360) after every history of stores with finite operands - also after every PREFIX of the '
+         'stores of a call that raises half-way; and for the dispatch table of '
          'Angle.__init__/FrozenAngle.__new__ every form of the argument (number, same class, twin angle class, Vec, FrozenVec, other '
          'iterable) has a path whose result is in range (a slot is taken over unchanged only from an angle). The census also lists every '
          'expression that creates an Angle, none unclassified. (b) Frame theorem: with a mutation census in which no method reachable with '
          'a frozen receiver writes its receiver, an argument or a copy() of either, frozen objects never change and non-receivers are never '
-         'written; the hash of a frozen object (a function of all of its slots and nothing else, mutable classes unhashable) is the same '
+         'written (the new values of written registers are arbitrary: covers interrupted calls); the hash of a frozen object (unhashable, or a '
+         'function of all of its slots and nothing else - never the identity; the hash of mutable classes is outside the property) is the same '
          'after every history and equal for equal values; no class of a frozen object defines an in-place operator; two objects of one family '
-         'with identical slots compare == (per-slot comparisons read from __eq__, each accepting a difference of zero). Copy theorem on a heap '
+         'with identical slots compare == (per-slot comparisons read from __eq__, each accepting a difference of zero; the == table is a field of '
+         'the source record of c05_property). Copy theorem on a heap '
          'with aliasing, and the VALUE of a copy (class, every slot; angles: same real value, in range). (c) format_float on every dyadic: '
          'text is -?digits(.1-6 digits), no trailing zero, no exponent; "-0" is printed IF AND ONLY IF the input is in the carved-out class; '
          'value within 5e-7 of x. parse_vec_str applied to three formatted numbers in any documented bracket style with any whitespace '
@@ -57,8 +64,9 @@ MANIFEST = dict(
          'only the public API is used. Not modelled: float VALUES of rotations (sin/cos/atan2; only finiteness assumed, searched), what '
          'format(value, spec) itself prints (Python\'s; only the post-processing is modelled), == against tuples and the relation of == to the hash '
          '(== of two objects with identical slots is proved from the comparisons read from __eq__), the Cython '
-         'twin. Known findings kept: format_float / str / __format__(".Nf") print "-0" on negative values that round to zero (suite pins '
-         'str); == within the tolerance does not imply equal hashes (inherent to a tolerance equality).',
+         'twin. Known findings kept: format_float and str/join/repr of vectors print "-0" on negative values that round to zero (the suite pins '
+         'that output). Observations only (outside the property): == within the tolerance does not imply equal hashes; format(v, ".3f") '
+         'prints "-0".',
 )
 
 IMPORTS = ['Coq.ZArith.ZArith', 'Coq.NArith.NArith', 'Coq.Lists.List', 'Coq.Strings.String', 'SV.Num.Mod360', 'SV.Num.AngleSites', 'SV.Num.AngleCtor', 'SV.Num.SpecStrip', 'SV.Num.C05Whole',
@@ -691,7 +699,7 @@ def gen_op(rng: random.Random, regs: list) -> tuple:
              'iop_scalar', 'iop_vec', 'imatmul', 'set_attr', 'set_item', 'vec_minmax', 'vec_localise', 'vec_rotate', 'transform',
              'ang_mul', 'ang_rmul', 'ang_imul', 'mat_to_angle', 'mat_transpose', 'mat_inverse', 'mat_setitem', 'str', 'hash', 'eq', 'iter_ctor',
              'bbox', 'with_axes', 'divmod', 'round', 'ctor_cross', 'new_kw', 'set_key', 'vec_to_angle_roll', 'vec_rotation_around',
-             'vec_rotate_by_str', 'vec_clamped', 'vec_lerp', 'mat_from_angstr', 'to_matrix', 'vec_reads']
+             'vec_rotate_by_str', 'vec_clamped', 'vec_lerp', 'mat_from_angstr', 'to_matrix', 'vec_reads', 'bad_call', 'bad_call']
     name = rng.choice(names)
     a = rng.randrange(len(regs)) if regs else None
     b = rng.randrange(len(regs)) if regs else None
@@ -778,6 +786,19 @@ def apply_op(op: tuple, regs: list):
             pass                    # not on an axis (within its tolerance)
         if finite_small(A): list(A.iter_line(A + (0.0, 0.0, 8.0), 4))
         return ('<reads>', a, [], [])
+    if name == 'bad_call':
+        # ERROR PATHS (round 5): a public call with an argument it must refuse (wrong type, short tuple, unknown key, zero
+        # divisor, a body that raises inside transform()).  Whatever it raises is fine; what it LEFT BEHIND is checked by the
+        # caller like after any other step: frozen registers and non-receivers unchanged, every angle still in range.
+        calls = BAD_CALLS['vec' if isvec(A) else 'ang' if isang(A) else 'mat']
+        f = calls[(k * 17 + int(abs(x) * 7) + len(regs)) % len(calls)]
+        try:
+            f(A)
+        except ImplTimeout:
+            raise
+        except Exception:           # noqa: BLE001 - the refusal itself
+            pass
+        return ('<raised>', a, [], [])
     if name == 'ctor_cross':          # an angle from a vector object, a vector from an angle object (and the same family)
         if ismat(A): return None
         return ('__init__', None, [a], [(Vec, FrozenVec, Angle, FrozenAngle)[k](A)])
@@ -931,6 +952,40 @@ def apply_op(op: tuple, regs: list):
     raise AssertionError(name)
 
 
+def _bad_calls() -> dict:
+    import operator as O
+
+    def boom(A):
+        with A.transform() as m:
+            m @= type(m).from_yaw(33.0)
+            raise ValueError('body failed')
+
+    def iop(fn, arg):
+        def g(A):
+            fn(A, arg)          # operator.iadd & co. fall back to the binary operator exactly like `x += y`
+        return g
+    common = [lambda A: A * 'x', lambda A: 'x' * A, lambda A: A @ 'x', lambda A: A['q'], lambda A: A[7], iop(O.imul, 'x'), iop(O.imatmul, 'x'),
+              iop(O.imul, None), lambda A: type(A)('a', 'b', 'c'), lambda A: type(A)([1.0, 'a']), lambda A: type(A)(1.0, 'a', 2.0),
+              lambda A: type(A).from_str(None), lambda A: type(A).with_axes('q', 1.0), lambda A: format(A, 'zz'), lambda A: A.join(5),
+              lambda A: A.__setitem__(9, 1.0) if hasattr(A, '__setitem__') else None, boom, lambda A: pickle.loads(pickle.dumps(A)[:-3])]
+    vec = common + [lambda A: A + (1.0, 'a', 3.0), lambda A: A - None, lambda A: A / 0.0, lambda A: A // 0.0, lambda A: A % 0.0, lambda A: divmod(A, 0.0),
+                    lambda A: A.cross((1.0,)), iop(O.iadd, (1.0, 'a', 3.0)), iop(O.isub, (1.0, 2.0, 'c')), iop(O.itruediv, 0.0), iop(O.ifloordiv, 0.0),
+                    iop(O.imod, 0.0), iop(O.iadd, None), lambda A: setattr(A, 'y', 'abc'), lambda A: A.__setitem__('z', 'abc'),
+                    lambda A: A.to_angle('x'), lambda A: A.localise('junk', None), lambda A: A.rotate('a', 0, 0), lambda A: A.max((1.0,)),
+                    lambda A: A.min('ab'), lambda A: type(A).with_axes('x', 'abc'), lambda A: A.in_bbox(1, 2), lambda A: A.rotate_by_str(5),
+                    lambda A: A.norm_mask if False else (A * 0.0).norm().norm(), lambda A: A.axis() if False else type(A)(0, 0, 0).axis()]
+    ang = common + [lambda A: setattr(A, 'yaw', 'abc'), lambda A: A.__setitem__('rol', 'abc'), lambda A: A.__setitem__('nope', 1.0),
+                    lambda A: type(A).with_axes('yaw', 'abc'), lambda A: type(A).from_basis(), lambda A: A @ (1.0, 'a', 3.0), lambda A: (1.0, 'a') @ A,
+                    lambda A: type(A).with_axes('pitch', 1.0, 'pitch', 'b'), iop(O.imatmul, (1.0, 2.0, 3.0)), lambda A: A * (1, 2)]
+    mat = [lambda A: A @ 'x', iop(O.imatmul, 'x'), iop(O.imatmul, None), lambda A: A[5, 5], lambda A: A['a'], lambda A: A.__setitem__((0, 0), 'abc'),
+           lambda A: A.__setitem__((7, 7), 1.0), lambda A: type(A).from_angle('a', 'b', 'c'), lambda A: type(A).from_basis(),
+           lambda A: type(A).from_yaw('q'), lambda A: type(A).from_angstr(None), lambda A: (1.0, 'a', 3.0) @ A, lambda A: type(A).axis_angle((0.0, 0.0, 0.0), 'x'),
+           lambda A: pickle.loads(pickle.dumps(A)[:-3]), lambda A: type(A).from_basis(x=A.forward(), y=A.forward())]
+    return {'vec': vec, 'ang': ang, 'mat': mat}
+
+
+BAD_CALLS = _bad_calls()
+
 COPY_OPS = {'copy', 'copy_copy', 'deepcopy', 'pickle', 'freeze', 'thaw', 'ctor_same', 'ctor_frozen'}
 SHAPE_OPS = {'copy', 'copy_copy', 'deepcopy', 'pickle', 'freeze', 'thaw'}       # the methods of Gen copy_shapes
 NEVER_RAISES = COPY_OPS | {'new_vec', 'new_fvec', 'new_ang', 'new_fang', 'new_kw', 'new_mat_yaw', 'new_mat_pitch', 'new_mat_roll', 'new_mat_angle',
@@ -1018,10 +1073,15 @@ class HistRunner:
         # copies are equal to and distinct from their (mutable) source
         if op[0] in COPY_OPS and out and op[1] is not None and op[1] < nregs:
             src, dst = regs[op[1]], out[0]
-            if snap(src)[1] != snap(dst)[1] and not (op[0] in ('ctor_frozen', 'ctor_same', 'pickle') and isang(src) is False and False):
+            if finite_obj(src) and raw_slots(src) != raw_slots(dst):        # "equal" = the same numbers (-0.0 == 0.0); every slot, exactly
                 problems.append((f'copy-not-equal-{op[0]}-{type(src).__name__}', f'{op[0]} of {snap(src)} gave {snap(dst)}', step))
             if dst is src and not is_frozen(src):
                 problems.append((f'copy-is-same-object-{op[0]}-{type(src).__name__}', f'{op[0]} returned the mutable source itself', step))
+            elif dst is not src and not is_frozen(dst) and any(dst is r for r in regs[:nregs]):
+                # (round 5: caches) a mutable "copy" that is an object handed out EARLIER is not independent: whoever holds
+                # the earlier result changes this one
+                problems.append((f'copy-returns-object-handed-out-before-{op[0]}-{type(src).__name__}',
+                                 f'{op[0]} of register {op[1]} returned the mutable object already held in register {next(i for i, r in enumerate(regs[:nregs]) if r is dst)}', step))
         for o in regs[nregs:]:
             if type(o).__name__ in ('FrozenVec', 'FrozenAngle') and safe_hash(o) == 'UNHASHABLE':
                 observe(f'frozen-class-unhashable-{type(o).__name__}', f'hash() of the {type(o).__name__} returned by {op[0]} raises TypeError')
@@ -1119,9 +1179,13 @@ def search_histories(ck: Ck) -> list[dict]:
             if key in found and len(found[key][0]) <= 3:
                 continue
             small = shrink(hist, lambda h, key=key: any(p[0] == key for p in run_history(h)[0]))
+            again = [p[1] for p in run_history(small)[0] if p[0] == key]
+            if not again:
+                # the shrunken history does not fail a second time: the implementation keeps state between calls (a cache
+                # survives from one replay to the next).  Report the history as it was generated.
+                small, again = hist, [what + ' (not reproducible call by call: state is kept between calls)']
             if key not in found or len(small) < len(found[key][0]):
-                w = next(p[1] for p in run_history(small)[0] if p[0] == key)
-                found[key] = (small, w)
+                found[key] = (small, again[0])
     ck.sample({'history': [list(o) for o in CORPUS_HIST[3]], 'final_registers': [snap(o)[:2] for o in run_history(CORPUS_HIST[3])[2]]})
     for key, (hist, what) in found.items():
         ck.violation(key, what, {'history': [list(o) for o in hist], 'how': 'checks.c05.run_history(history)'})
@@ -1509,12 +1573,21 @@ def ctor_case(cname: str, form: str, v: list, k: int, limit=None) -> list[tuple[
         if type(r) is not want:
             out.append((f'copy-wrong-class-{pname}-{cname}', f'{pname} of {what} is a {type(r).__name__}'))
             continue
-        if hexes(raw_slots(r)) != hexes(got):
+        if raw_slots(r) != got:                     # "equal" = the same numbers (-0.0 == 0.0); every slot, exactly
             out.append((f'copy-not-equal-{pname}-{cname}', f'{pname} of {what} = {got!r} holds {raw_slots(r)!r}'))
         elif not (r == o) or (r != o) or (is_frozen(r) and is_frozen(o) and safe_hash(r) != safe_hash(o)):
             out.append((f'copy-compares-unequal-{pname}-{cname}', f'{pname} of {what}: == / hash disagree although all slots are identical'))
         if r is o and not is_frozen(o):
             out.append((f'copy-is-same-object-{pname}-{cname}', f'{pname} of {what} returned the mutable object itself'))
+        elif not is_frozen(r):
+            try:
+                with (limit or no_limit)():
+                    r2 = post(o)
+            except Exception:       # noqa: BLE001 - the first call worked: reported as a copy that raises
+                out.append((f'copy-raised-{pname}-{cname}', f'the second {pname} of {what} raised'))
+                continue
+            if r2 is r:
+                out.append((f'copy-returns-object-handed-out-before-{pname}-{cname}', f'{pname} of {what} twice returned the same mutable object'))
         if raw_slots(o) != got:
             out.append((f'source-changed-by-{pname}-{cname}', f'{pname} changed {what} from {got!r} to {raw_slots(o)!r}'))
     return out
@@ -1908,7 +1981,7 @@ def theorems_with_axioms(ck: Ck, props_file: str = 'Props/C05.v'):
 # statements of Props/C05.v that go through Flocq's real-number layer (the four classical axioms of Coq's Reals); every other
 # statement is expected to be closed under the global context.  Only a hint for the fast path below: if it is wrong in
 # either direction the per-statement pass runs and reports what Print Assumptions really says.
-REALS_THEOREMS = {'c05_property', 'c05_ctor_range', 'c05_ctor_vec_copy_refuted', 'c05_norm360_range', 'c05_single_mod_closed', 'c05_single_mod_refuted', 'c05_angle_range_invariant', 'c05_single_site_refuted',
+REALS_THEOREMS = {'c05_property', 'c05_range_after_interrupted_call', 'c05_ctor_range', 'c05_ctor_vec_copy_refuted', 'c05_norm360_range', 'c05_single_mod_closed', 'c05_single_mod_refuted', 'c05_angle_range_invariant', 'c05_single_site_refuted',
                   'c05_double360_id', 'c05_double360_idempotent', 'c05_double360_of_360', 'c05_within_5e7_R', 'c05_float_parse_error',
                   'c05_float_parse_exact', 'c05_copy_value_equal_angles', 'c05_double360_sub', 'c05_angle_component_roundtrip',
                   'c05_angle_text_roundtrip', 'c05_vec_text_roundtrip'}
@@ -2010,7 +2083,7 @@ def _theorems_record(ck: Ck, props_file: str, names: list[str], parts: list[list
 def run(ck: Ck) -> None:
     ck.rule = ('mod360: doubles from all binades / around multiples of 360 / subnormals / tiny negatives, non-trivial = the modulo changed '
                'the value, distinct by bit pattern; format: doubles incl. exact ties k/128, tiny values, boundaries, non-trivial = output has a '
-               'fraction or a sign; histories: random operation sequences (65 operation kinds) over registers of Vec/Angle/Matrix and frozen '
+               'fraction or a sign; histories: random operation sequences (66 operation kinds, one of them = 68 calls that must be refused: error paths) over registers of Vec/Angle/Matrix and frozen '
                'twins, non-trivial = some register changed while a frozen register exists, distinct by full history; to_angle routes: '
                'non-trivial = a tiny non-zero operand; parse: corpus + generated strings (three formatted/literal/exotic numbers, 0-5 fields, '
                'stray brackets, 18 kinds of Unicode whitespace and look-alikes, all bracket styles incl. wrong ones), non-trivial = the model '
@@ -2072,9 +2145,10 @@ def run(ck: Ck) -> None:
             'no_inplace_operator_on_a_class_of_frozen_objects': 'inplace_ok inplace_rows',
             'eq_compares_every_slot_and_accepts_identical_values': 'eq_table_ok eq_shapes',
             'ne_is_the_negation_of_eq': 'ne_is_negation_of_eq',
+            'no_state_kept_between_calls': 'no_shared_state shared_state',
             'whole_property_hypotheses_hold': 'c05_source_ok {| s_sites := angle_sites; s_creations := angle_creations; s_ctors := angle_ctors; '
                                               's_ctor_rows := angle_ctor_rows; s_events := mut_events; s_results := result_kinds; s_shapes := copy_shapes; '
-                                              's_hash := hash_kinds; s_inplace := inplace_rows; s_eq := eq_shapes; s_fmt := format_float_cfg; s_parse := parse_vec_cfg; '
+                                              's_hash := hash_kinds; s_inplace := inplace_rows; s_eq := eq_shapes; s_shared := shared_state; s_fmt := format_float_cfg; s_parse := parse_vec_cfg; '
                                               's_vspec := vec_spec_cfg; s_aspec := angle_spec_cfg |}',
             'no_write_through_unknown_or_aliased_object': 'forallb (fun e : mut_event => match snd (fst e) with Unknown | MaybeAlias | Param => helper (snd (fst (fst e))) | _ => true end) mut_events',
         })
@@ -2186,6 +2260,8 @@ def explain_failures(ck: Ck) -> None:
                          'angle-out-of-range-after-new_', 'angle-out-of-range-after-ctor_')) for k in keys):
         ck.explain('instance:angle_constructors_normalise_every_argument_form')
         ck.explain('correspondence:ctor_rows')
+    if any(k.startswith(('angle-out-of-range-after-ctor-from_str', 'angle-out-of-range-after-ang_from_str', 'ctor-raised-from_str')) for k in keys):
+        ck.explain('instance:from_str_of_angles_uses_parse_vec_str')        # from_str hands out an angle that did not go through the parse + constructor chain
     if any(k.startswith('angle-ctor-wrong-value') for k in keys):
         for o in ('instance:all_angle_store_sites_safe', 'instance:no_single_modulo_store', 'instance:no_unclassified_angle_store'):
             ck.explain(o)
@@ -2194,10 +2270,16 @@ def explain_failures(ck: Ck) -> None:
         ck.explain('instance:no_write_through_unknown_or_aliased_object')
         ck.explain('instance:census_fresh_by_name_justified')
         ck.explain('correspondence:frames')
-    if any(k.startswith(('copy-is-same-object', 'copy-not-equal', 'source-changed-by', 'copy-raised', 'raised-', 'frozen-route-raised', 'copy-wrong-class')) for k in keys):
+    if any(k.startswith(('copy-returns-object-handed-out-before', 'copy-is-same-object', 'copy-not-equal', 'source-changed-by', 'copy-raised', 'raised-', 'frozen-route-raised', 'copy-wrong-class')) for k in keys):
         ck.explain('instance:copy_')
+        ck.explain('instance:no_state_kept_between_calls')
         ck.explain('correspondence:results')
         ck.explain('correspondence:copy_shapes')
+    if any(k.startswith('copy-returns-object-handed-out-before') for k in keys):
+        # a cache: the store into it is what the mutation census and the creation census see
+        for o in ('instance:mutation_census_ok', 'instance:no_write_through_unknown_or_aliased_object', 'instance:no_unclassified_angle_creation',
+                  'instance:census_fresh_by_name_justified', 'correspondence:frames'):
+            ck.explain(o)
     if any(k.startswith(('copy-compares-unequal', 'ctor-not-equal-to-same-value')) for k in keys):
         ck.explain('instance:eq_compares_every_slot_and_accepts_identical_values')
         ck.explain('instance:ne_is_the_negation_of_eq')
